@@ -276,6 +276,10 @@ EXPECT = {'MLoad': ('RLoad',), 'MDistance': ('RDistance',), 'MUnknownAct': ('AFo
           'MDupAct': ('AJobIncomplete', 'AJobOrder')}
 
 
+# breaches that necessarily damage other rules too (an inserted stop breaks load and routing): the checker's dedicated message
+DEDICATED = {'MCopyStop': 'job served in multiple tours', 'MMoveStop': 'job served in multiple tours'}
+
+
 def _spread(xs, cap, rot):
     """at most `cap` evenly spaced elements (systematic, rotated by the solution index so that all positions get used)"""
     if len(xs) <= cap:
@@ -511,6 +515,12 @@ def oracle_model(c, impl, model):
                  'what': 'valid_b = [] (evaluated in Coq) but the checker reports %s' % json.dumps(e)[:600]}
                 for e in errs for suf in _reject_structure(c, str(e))]
     cls = mut_class(m, base_of(c)[1])
+    if v == 'reject' and m['op'] in DEDICATED:
+        # a breach that also damages load / routing is rejected anyway: the rule the class is about must be among the reasons
+        if not any(DEDICATED[m['op']] in str(e) for e in impl.get('errors') or []):
+            return [{'class': 'checker-misses-rule:' + cls,
+                     'what': 'breach %s at site %s rejected only for other reasons: %s' % (
+                         cls, json.dumps(m), json.dumps(impl.get('errors'))[:400])}]
     if v == 'reject' or v == 'unreadable':
         return []
     if v == 'panic':
